@@ -7,6 +7,19 @@ ALL = ["C%02d" % i for i in range(1, 21)]
 
 # id -> (category, level text, level note, technique, design_ref)
 CHECKS = {
+ "C08": ("exploration",
+         "Generated layer stacks (alternating directions, offsets, overlaps incl. shared rails, Repeat patterns, flipped and unflipped, symmetric and asymmetric) and well-formed cells (cuts, assignments on distinct wire pieces, reflected instances of lower-metal cells on the pitch grid) are compiled with RawExporter::convert; the multiset of (layer, rectangle, net) of the compiled cell is compared with an independent track-grid model: wires = track minus cuts minus instance extents at flip-aware positions, rails named, assigned pieces named, one centred via per assignment, nothing else.",
+         "Even cut/via/track sizes; rectangular outlines; an Err from the compiler satisfies the statement (counted; <70% compiled => inconclusive). Zero-area rectangles are dropped before comparison.",
+         "runtime monitoring: reference track-grid model oracle over generated stacks and cells", "DESIGN.md 3 C08"),
+ "C09": ("exploration",
+         "Placement programs (trees and chains of relative placements, 4 sides x orthogonal alignments x reflections of both instances x 3 separation kinds) are run through Placer::place under every listing permutation (<= 6 instances) or sampled permutations; absolute locations by instance name must equal an independent solution of the edge constraints and be order-independent; absolute (nested, reflected) arrays must expand to the reference copies; cyclic relations run in isolated children and must be rejected.",
+         "Relations to arrays/groups/ports and Align::Center/Ports are documented unimplemented and excluded.",
+         "runtime monitoring: constraint-solution oracle over permuted placement programs; crash isolation", "DESIGN.md 3 C09"),
+ "C19": ("fault_enumeration",
+         "Placed gridded libraries go ProtoExporter::export -> ProtoLibImporter::import and are compared cell by cell (outline steps, metals, ordered instances with both reflections, assignments, cuts) with dependency-first export order; then every mandatory part of every cell/instance/assignment/cut of each valid message is removed or invalidated in turn (fault enumeration) and import must return Err, never Ok or panic.",
+         "Abstracts with ports excluded (import_abstract_port is todo!()).",
+         "runtime monitoring: round-trip oracle + message fault enumeration with panic monitor", "DESIGN.md 3 C19"),
+
  "C06": ("exploration",
          "GDSII libraries (shuffled acyclic hierarchies; rectangles CW/CCW, polygons, boxes, paths; SREFs in all 8 right-angle orientations; AREFs with axis-aligned, rotated and skewed lattices incl. > 32767 placements; labels inside/on/outside shapes) are imported with Library::from_gds; each imported cell is flattened with Layout::flatten and compared as a multiset with an independent GDSII-semantics flattener; nets and annotations are compared with exact containment; malformed hierarchies run in isolated child processes and must be rejected.",
          "Exact oracle for right-angle orientations only. An Err on a valid library satisfies the statement (counted, non-vacuity threshold). Labels in path end-cap bands and doubly-labelled shapes are not judged.",
@@ -107,7 +120,7 @@ def main():
         "version": 1,
         "setup_cmd": "./check build",
         "hooks": {
-            "guard": "cargo feature `verif-hooks` (layout21utils, gds21, lef21, layout21tetris); off by default",
+            "guard": "cargo feature `verif-hooks` (layout21utils, gds21, lef21); off by default",
             "enable": "the harness crate /verif/harness depends on /repo's crates by path with features=[\"verif-hooks\"]; `./check` runs `cargo build --offline --profile verif` there, which recompiles /repo's working tree",
             "baseline_off_cmd": "cd /repo && cargo test --workspace --no-fail-fast --offline",
             "source_commits": hooks_commits(),
